@@ -62,6 +62,8 @@ mod embedded_io;
 mod hal;
 pub mod queue;
 pub mod transport;
+#[cfg(virtio_drivers_verif)]
+pub mod verif;
 
 use device::socket::SocketError;
 use thiserror::Error;
